@@ -1,4 +1,4 @@
-import ColaVerif.Basic.GInt
+import ColaVerif.Basic.GRat
 import ColaVerif.Model.Matmat
 
 /-!
@@ -8,7 +8,8 @@ import ColaVerif.Model.Matmat
 `-|β|`, so that its subtraction becomes an addition).  Running the *same* code model on `absOp A`
 and `|X|` bounds the magnitude of every intermediate real number of the computation on `A`, `X`
 (the L¹ modulus is sub-multiplicative).  The harness compares floating-point results with the
-exact model only when this bound is below 2²⁴ (float32 involved) resp. 2⁵³.
+exact model only when this bound (times the power of two that clears the dyadic denominators) is
+below 2²⁴ (float32 involved) resp. 2⁵³.
 -/
 
 namespace Op
@@ -35,7 +36,7 @@ def mapPayload {R : Type} (f : R → R) (g : R → R) : Op R → Op R
   | generic A => generic (mapPayload f g A)
   | annot a A => annot a (mapPayload f g A)
 
-def absZ (z : GInt) : GInt := ⟨z.re.natAbs + z.im.natAbs, 0⟩
-def absOp (A : Op GInt) : Op GInt := mapPayload absZ (fun b => -(absZ b)) A
+def absZ (z : GRat) : GRat := ⟨z.absL1, 0⟩
+def absOp (A : Op GRat) : Op GRat := mapPayload absZ (fun b => -(absZ b)) A
 
 end Op
